@@ -165,10 +165,19 @@ def replay(task):
     ths = task["thresholds"]  # index (1-based) -> dict
     nS = task["samples"]
     refbase = ["A", "C"]
-    g = bamgen.Geometry.build(rng0, refbase)
+    # every third chunk uses ONE long target (> 10 kb) whose 10 000th position is the first site, instead of two
+    # 1-bp targets: "for every target position" also holds deep inside whole-chromosome style targets
+    try:
+        long_target = int(str(task["chunk"]).split("-")[-1]) % 3 == 0
+    except ValueError:
+        long_target = False
+    g = bamgen.Geometry.build(rng0, refbase, flank=(10020, 10030)) if long_target else bamgen.Geometry.build(rng0, refbase)
     contigs = {g.contig: len(g.ref)}
     fasta = bamgen.write_fasta(os.path.join(wd, "ref.fa"), {g.contig: g.ref})
-    bed = bamgen.write_bed(os.path.join(wd, "targets.bed"), [(g.contig, p, p + 1) for p in g.sites])
+    if long_target:
+        bed = bamgen.write_bed(os.path.join(wd, "targets.bed"), [(g.contig, g.sites[0] - 9999, g.sites[1] + 1)])
+    else:
+        bed = bamgen.write_bed(os.path.join(wd, "targets.bed"), [(g.contig, p, p + 1) for p in g.sites])
     res = {"evals": 0, "states": 0, "mismatch": [], "nontrivial": 0, "ambiguous": 0, "cli": 0}
 
     def report(kind, key, detail):
@@ -293,7 +302,7 @@ def replay(task):
                             report("record-mismatch", {"site": "mchap find-snvs", "clause": clause},
                                    dict(ctx, argv=argv, pos=p, impl=a, model=b, depth=dsp))
                     extra = [k for k in recs if k[1] not in g.sites]
-                    if extra:
+                    if extra and not long_target:   # a long target legitimately contains the reads' other positions
                         report("record-mismatch", {"site": "mchap find-snvs", "clause": "OnlyTargets"}, dict(ctx, argv=argv, impl=extra))
             except Exception as e:  # noqa
                 report("impl-error", {"site": "mchap find-snvs", "error": type(e).__name__}, dict(ctx, argv=argv, error=str(e)))
